@@ -64,7 +64,10 @@ func (env *CEnv) EvalBool(n *Node) (t *Term, err error) {
 				err = ee
 				return
 			}
-			panic(r)
+			// (a clause written against other types than the code now has - sorts that do
+			// not fit, a field that became something else - fails to evaluate, it does not
+			// bring the run down)
+			err = fmt.Errorf("clause does not fit the code: %v", r)
 		}
 	}()
 	v := env.eval(n)
@@ -944,6 +947,9 @@ func (env *CEnv) call(n *Node) cval {
 			// HTMLData-like default
 			mt = types.NewMap(types.Typ[types.String], types.NewInterfaceType(nil, nil))
 		}
+		if t, isT := m.V.(*Term); isT && t.S != SInt {
+			cfail("mapget of a value that is no map (%s)", t.S)
+		}
 		v, _ := env.ex.mapLookup(env.scratchState(), m.V, k.V, mt)
 		return cval{V: v, T: mt.Elem()}
 	case "maphas":
@@ -956,6 +962,9 @@ func (env *CEnv) call(n *Node) cval {
 			if t, ok := m.T.Underlying().(*types.Map); ok {
 				mt = t
 			}
+		}
+		if t, isT := m.V.(*Term); isT && t.S != SInt {
+			cfail("maphas of a value that is no map (%s)", t.S)
 		}
 		_, has := env.ex.mapLookup(env.scratchState(), m.V, k.V, mt)
 		return cval{V: has}
